@@ -61,6 +61,50 @@ package dirk
 //@   ensures forall i phase0.ValidatorIndex :: in(result0, i) <==> (in(knownValidators(), i) && syncEligibleIn(knownValidators()[i], epoch, s.farFutureEpoch))
 //@   ensures forall i phase0.ValidatorIndex :: in(result0, i) ==> result0[i] == s.accounts[knownValidators()[i].PublicKey]
 //@
+//@ // the by-index lookup (the one the attester uses): the same accounts, restricted to the indices asked for
+//@ func (*Service).ValidatingAccountsForEpochByIndex
+//@   requires nolocks() && epoch <= 9223372036854775807
+//@   assumes call ValidatorsByPubKey#1 (m): m == knownValidators() && (forall i phase0.ValidatorIndex :: in(m, i) ==> m[i] != nil && in(s.accounts, m[i].PublicKey) && !isnil(s.accounts[m[i].PublicKey]))
+//@   loop (*Service).accountsForEpochByIndexWithFilter.1
+//@     invariant -1 <= rangeindex && rangeindex < len(indices) && accounts == s.accounts
+//@     invariant forall i phase0.ValidatorIndex {in(indexPresenceMap, i)} :: in(indexPresenceMap, i) ==> (exists k int {indices[k]} :: 0 <= k && k <= rangeindex && indices[k] == i)
+//@     invariant forall k int :: 0 <= k && k <= rangeindex ==> in(indexPresenceMap, indices[k])
+//@   loop (*Service).accountsForEpochByIndexWithFilter.2
+//@     invariant accounts == s.accounts
+//@     invariant forall i phase0.ValidatorIndex {in(indexPresenceMap, i)} :: in(indexPresenceMap, i) ==> (exists k int {indices[k]} :: 0 <= k && k < len(indices) && indices[k] == i)
+//@     invariant forall k int :: 0 <= k && k < len(indices) ==> in(indexPresenceMap, indices[k])
+//@     invariant forall i phase0.ValidatorIndex :: in(validatingAccounts, i) ==> in(validators, i) && in(indexPresenceMap, i) && activeIn(validators[i], epoch, s.farFutureEpoch) && validatingAccounts[i] == accounts[validators[i].PublicKey]
+//@     invariant forall i phase0.ValidatorIndex :: visited(i) && in(indexPresenceMap, i) && activeIn(validators[i], epoch, s.farFutureEpoch) ==> in(validatingAccounts, i)
+//@   ensures result1 == nil
+//@   // only validators that were asked for, are known and are in the right state ...
+//@   ensures forall i phase0.ValidatorIndex :: in(result0, i) ==> in(knownValidators(), i) && activeIn(knownValidators()[i], epoch, s.farFutureEpoch) && (exists k int {indices[k]} :: 0 <= k && k < len(indices) && indices[k] == i)
+//@   // ... all of them ...
+//@   ensures forall k int :: 0 <= k && k < len(indices) && in(knownValidators(), indices[k]) && activeIn(knownValidators()[indices[k]], epoch, s.farFutureEpoch) ==> in(result0, indices[k])
+//@   // ... each with the account configured for its key
+//@   ensures forall i phase0.ValidatorIndex :: in(result0, i) ==> result0[i] == s.accounts[knownValidators()[i].PublicKey]
+//@
+//@ // the by-index lookup (the one the attester uses): the same accounts, restricted to the indices asked for
+//@ func (*Service).SyncCommitteeAccountsForEpochByIndex
+//@   requires nolocks() && epoch <= 9223372036854775807
+//@   assumes call ValidatorsByPubKey#1 (m): m == knownValidators() && (forall i phase0.ValidatorIndex :: in(m, i) ==> m[i] != nil && in(s.accounts, m[i].PublicKey) && !isnil(s.accounts[m[i].PublicKey]))
+//@   loop (*Service).accountsForEpochByIndexWithFilter.1
+//@     invariant -1 <= rangeindex && rangeindex < len(indices) && accounts == s.accounts
+//@     invariant forall i phase0.ValidatorIndex {in(indexPresenceMap, i)} :: in(indexPresenceMap, i) ==> (exists k int {indices[k]} :: 0 <= k && k <= rangeindex && indices[k] == i)
+//@     invariant forall k int :: 0 <= k && k <= rangeindex ==> in(indexPresenceMap, indices[k])
+//@   loop (*Service).accountsForEpochByIndexWithFilter.2
+//@     invariant accounts == s.accounts
+//@     invariant forall i phase0.ValidatorIndex {in(indexPresenceMap, i)} :: in(indexPresenceMap, i) ==> (exists k int {indices[k]} :: 0 <= k && k < len(indices) && indices[k] == i)
+//@     invariant forall k int :: 0 <= k && k < len(indices) ==> in(indexPresenceMap, indices[k])
+//@     invariant forall i phase0.ValidatorIndex :: in(validatingAccounts, i) ==> in(validators, i) && in(indexPresenceMap, i) && syncEligibleIn(validators[i], epoch, s.farFutureEpoch) && validatingAccounts[i] == accounts[validators[i].PublicKey]
+//@     invariant forall i phase0.ValidatorIndex :: visited(i) && in(indexPresenceMap, i) && syncEligibleIn(validators[i], epoch, s.farFutureEpoch) ==> in(validatingAccounts, i)
+//@   ensures result1 == nil
+//@   // only validators that were asked for, are known and are in the right state ...
+//@   ensures forall i phase0.ValidatorIndex :: in(result0, i) ==> in(knownValidators(), i) && syncEligibleIn(knownValidators()[i], epoch, s.farFutureEpoch) && (exists k int {indices[k]} :: 0 <= k && k < len(indices) && indices[k] == i)
+//@   // ... all of them ...
+//@   ensures forall k int :: 0 <= k && k < len(indices) && in(knownValidators(), indices[k]) && syncEligibleIn(knownValidators()[indices[k]], epoch, s.farFutureEpoch) ==> in(result0, indices[k])
+//@   // ... each with the account configured for its key
+//@   ensures forall i phase0.ValidatorIndex :: in(result0, i) ==> result0[i] == s.accounts[knownValidators()[i].PublicKey]
+//@
 //@ // C13: a refresh that obtains no account from the remote signer keeps what is known
 //@ func (*Service).refreshAccounts
 //@   requires nolocks()
